@@ -201,7 +201,7 @@ def explore(run, mode, runs, prefixes, procs=8):
         for f in (tp, op):
             if os.path.exists(f):
                 os.remove(f)
-        r = vlib.run_bin(binp, ["-test.run", "^TestExplore$", "-test.timeout", "3000s", "-test.count", "1"],
+        r = vlib.run_bin(binp, ["-test.run", "^TestExplore$", "-test.timeout", "900s" if run.tier == "quick" else "3000s", "-test.count", "1"],
                          env_extra={"VH_TRACE": tp, "VH_OUT": op, "VH_RUNS": per, "VH_IDBASE": 1000000 + i * per, "VH_MODE": mode,
                                     "VERIF_SEED": vlib.seed(), "GOLOG_LOG_LEVEL": "error"}, timeout=3100)
         if r.returncode != 0:
